@@ -114,10 +114,39 @@ def pack():
         print(name, {p: v["exit"] for p, v in checks.items()})
 
 
+def table():
+    """markdown: seeded change x property -> what the check reported (from the detect*.json files in OUT)"""
+    det = {}
+    for f in sorted(glob.glob(f"{OUT}/detect*.json")):
+        for r in json.load(open(f)):
+            det.setdefault(r["id"], {}).update(r["checks"])
+    props = ["C01", "C02", "C03", "C04", "C05", "C08", "C10", "C11", "C15"]
+    print("| change | " + " | ".join(props) + " | first failed obligations (target property) |")
+    print("|---|" + "---|" * (len(props) + 1))
+    for name in sorted(det):
+        row = []
+        for p in props:
+            c = det[name].get(p)
+            if not c:
+                row.append("")
+                continue
+            bk = sorted({d["backend"].split("-")[0] for d in c["details"]})
+            row.append({0: "·", 1: "**V** " + "+".join(b[0] for b in bk), 2: "u"}.get(c["exit"], "?"))
+        tgt = det[name].get(name.split("_")[0], {})
+        obs = []
+        for d in tgt.get("details", []):
+            for o in d.get("obligations") or []:
+                if o not in obs:
+                    obs.append(o)
+        print(f"| {name} | " + " | ".join(row) + " | " + ", ".join(obs[:3]) + " |")
+
+
 def main():
     mode = sys.argv[1]
     if mode == "pack":
         return pack()
+    if mode == "table":
+        return table()
     props = sys.argv[3:]
     ms = list(muts())
     if mode == "confirm":
